@@ -250,16 +250,53 @@ def w_invariance(item, seed=0, quick=True):
                 t.case(key=case, nontrivial=b < J, outcome=[round(rec / full[0], 4)])
                 if P.ptycho.num_iters != n0 + 1 or not ev <= TOL:
                     t.fail({"relation": "epoch_loss_equals_full_batch_loss", "part": "loop", "loss_type": lt}, case, f"reconstruct(num_iters=1, batch_size={b}, lr=0) recorded loss {rec:.8g}, full-batch loss {full[0]:.8g} (rel {ev:.3g}), J={J} order={order} {lt}")
+        # the same loop WITH a validation split: the epoch loss is the loss over the TRAINING set (batch sizes dividing its
+        # size), the recorded validation loss is the loss over the validation set; every order of split and epoch is owned
+        if J >= 12:
+            for vmode, vratio in (("grid", 0.25), ("random", 0.25)):
+                split_orders = [list(range(J))] if vmode == "grid" else [list(range(J)), list(range(J))[::-1], list(range(1, J, 2)) + list(range(0, J, 2))]
+                for split in split_orders:
+                    ref_b = SB(J, 1, shuffle=False, rng=OwnedGenerator([split]), val_ratio=vratio, val_mode=vmode)
+                    train = np.asarray(ref_b.train_indices)
+                    val = np.asarray(ref_b.val_indices)
+                    ntr = len(train)
+                    full_tr = P.loss_and_grads(train, lt)[0]
+                    full_val = P.loss_and_grads(val, lt)[0]
+                    for b in [d for d in range(1, ntr + 1) if ntr % d == 0]:
+                        eorder = list(range(ntr))[::-1] if b % 2 else list(range(ntr))
+                        case = {"part": "loop_val", "J": J, "obj_type": obj_type, "modes": modes, "slices": slices, "loss_type": lt, "val_mode": vmode, "val_ratio": vratio, "split": split, "order": eorder, "batch_size": b}
+                        P.ptycho.val_ratio = vratio
+                        P.ptycho.val_mode = vmode
+                        P.ptycho.rng = OwnedGenerator([split, eorder] if vmode == "random" else [eorder])
+                        try:
+                            P.ptycho.reconstruct(num_iters=1, batch_size=b, optimizer_params=ZERO_LR, loss_type=lt)
+                            rec = float(P.ptycho.iter_losses[-1])
+                            vrec = float(P.ptycho.val_iter_losses[-1]) if len(P.ptycho.val_iter_losses) else float("nan")
+                        finally:
+                            P.ptycho.val_ratio = 0.0
+                            P.ptycho.val_mode = "grid"
+                        ev = abs(rec - full_tr) / abs(full_tr)
+                        t.stat("loop_val_loss_rel_err", ev)
+                        t.case(key=case, nontrivial=True, outcome=[round(rec / full_tr, 4), ntr, len(val)])
+                        if not ev <= TOL:
+                            t.fail({"relation": "epoch_loss_equals_training_set_loss", "part": "loop_val", "loss_type": lt, "val_mode": vmode}, case, f"validation split {vmode}/{vratio} (train {ntr}, val {len(val)}), batch_size={b}, lr=0: recorded epoch loss {rec:.8g}, loss over the training set {full_tr:.8g} (rel {ev:.3g})")
+                        # validation batches of size b over len(val) patterns: only compared when b divides len(val)
+                        if len(val) % b == 0:
+                            evv = abs(vrec - full_val) / abs(full_val)
+                            if not evv <= TOL:
+                                t.fail({"relation": "validation_loss_equals_validation_set_loss", "part": "loop_val", "loss_type": lt, "val_mode": vmode}, case, f"validation split {vmode}/{vratio}, batch_size={b}: recorded validation loss {vrec:.8g}, loss over the validation set {full_val:.8g} (rel {evv:.3g})")
     return t
 
 
 ADAM = {"object": {"type": "adam", "lr": 2e-2}, "probe": {"type": "adam", "lr": 2e-2}}
 
 
-def run_history(J, obj_type, modes, seed, pseed, batch_size, iters=3, reset_again=False):
+def run_history(J, obj_type, modes, seed, pseed, batch_size, iters=3, reset_again=False, val=None):
     with warnings.catch_warnings():
         warnings.simplefilter("ignore")
         P = build_problem(tiny_cfg(J, obj_type, modes, 1), seed, [J, modes, 1])
+        if val:
+            P.ptycho.val_ratio, P.ptycho.val_mode = val[0], val[1]
         P.ptycho.rng = int(pseed)
         P.ptycho.reconstruct(num_iters=iters, reset=True, batch_size=batch_size, optimizer_params=ADAM)
         h1 = np.array(P.ptycho.iter_losses, dtype=np.float64).tobytes()
@@ -278,20 +315,23 @@ def w_reset_histories(item, seed=0, depth=3):
     operations after an initial seeded run: whenever a reset run occurs, its loss history must be bit-identical to a
     fresh run from the same seed — whatever happened before (a stale generator, optimizer or scheduler survives a
     reset only along particular histories)."""
-    J, obj_type, modes, bs, pseed = item
+    J, obj_type, modes, bs, pseed = item[:5]
+    val = tuple(item[5]) if len(item) > 5 and item[5] else None
     t = Tally()
     iters = 3
-    fresh, _, lf = run_history(J, obj_type, modes, seed, pseed, bs, iters=iters)
+    fresh, _, lf = run_history(J, obj_type, modes, seed, pseed, bs, iters=iters, val=val)
     for d in range(1, depth + 1):
         for hist in itertools.product(RESET_OPS, repeat=d):
             if hist[-1] != "reset" or ("reset" in hist[:-1] and not any(h != "reset" for h in hist)):
                 pass
             if hist[-1] != "reset":
                 continue  # only histories that end in the observed reset run
-            case = {"part": "reset_history", "J": J, "obj_type": obj_type, "modes": modes, "batch_size": bs, "ptycho_seed": pseed, "history": list(hist)}
+            case = {"part": "reset_history", "J": J, "obj_type": obj_type, "modes": modes, "batch_size": bs, "ptycho_seed": pseed, "history": list(hist), "val": list(val) if val else None}
             with warnings.catch_warnings():
                 warnings.simplefilter("ignore")
                 P = build_problem(tiny_cfg(J, obj_type, modes, 1), seed, [J, modes, 1])
+                if val:
+                    P.ptycho.val_ratio, P.ptycho.val_mode = val[0], val[1]
                 P.ptycho.rng = int(pseed)
                 P.ptycho.reconstruct(num_iters=iters, reset=True, batch_size=bs, optimizer_params=copy.deepcopy(ADAM))
                 ok_first = np.array(P.ptycho.iter_losses, dtype=np.float64).tobytes() == fresh
@@ -307,7 +347,7 @@ def w_reset_histories(item, seed=0, depth=3):
             if not ok_first:
                 t.fail({"relation": "same_seed_same_loss_history", "part": "reset_history"}, case, f"fresh run from seed {pseed} differs from the reference fresh run")
             if got.tobytes() != fresh:
-                t.fail({"relation": "reset_repeats_loss_history", "part": "reset_history", "after": "continued_run" if any(h != "reset" for h in hist) else "reset_only"}, case, f"history {list(hist)}: the final reset run gave {got.tolist()}, a fresh run from the same seed gives {lf}")
+                t.fail({"relation": "reset_repeats_loss_history", "part": "reset_history", "after": "continued_run" if any(h != "reset" for h in hist) else "reset_only", "validation": val[1] if val else "none"}, case, f"history {list(hist)}: the final reset run gave {got.tolist()}, a fresh run from the same seed gives {lf}")
     return t
 
 
@@ -366,6 +406,8 @@ def run(ctx):
     det = [(J, ot, m, bs, ps) for J in (4, 12) for ot, m in (("complex", 1), ("potential", 2)) for bs in ([1, 2] if J == 4 else [3, 5]) for ps in ([11] if q else [11, 12, 13])]
     m = ctx.pmap(w_determinism, det, chunk=1, label="seeded determinism", seed=ctx.seed)
     rh = [(4, "complex", 1, 2, 11), (12, "potential", 2, 5, 11)] if q else [(J, ot, mm, bs, 11) for J, bs in ((4, 1), (4, 2), (12, 5)) for ot, mm in (("complex", 1), ("potential", 2))]
+    # with a validation split (random and grid): the split itself is state that a reset must redraw identically
+    rh += [(12, "complex", 1, 2, 11, (0.25, "random")), (12, "complex", 1, 4, 11, (0.25, "grid"))] if q else [(12, ot, mm, bs, 11, v) for ot, mm in (("complex", 1), ("potential", 2)) for bs in (2, 4) for v in ((0.25, "random"), (0.25, "grid"), (0.5, "random"))]
     ctx.pmap(w_reset_histories, rh, chunk=1, label="reset after every history", seed=ctx.seed, depth=2 if q else 3)
     if m.extra["different_seed_cases"] and m.extra["different_seed_differs"] == 0:
         raise Broken("different seeds never changed the loss history: the shuffle does not matter, determinism check is vacuous")
@@ -383,10 +425,10 @@ def replay(ctx, case):
         check_batcher(t, case["n"], case["batch_size"], case["val_ratio"], case["val_mode"], case["shuffle"], rng=rng, prescribed=pres, epochs=1 if pres and "split" in pres else 2)
     elif part == "generate_batches":
         t = w_batcher(case["n"], seed=ctx.seed, ratios=[0.0])
-    elif part in ("invariance", "loop"):
+    elif part in ("invariance", "loop", "loop_val"):
         t = w_invariance((case["J"], case["obj_type"], case["modes"], case["slices"], case["loss_type"]), seed=ctx.seed, quick=True)
     elif part == "reset_history":
-        t = w_reset_histories((case["J"], case["obj_type"], case["modes"], case["batch_size"], case["ptycho_seed"]), seed=ctx.seed, depth=len(case["history"]))
+        t = w_reset_histories((case["J"], case["obj_type"], case["modes"], case["batch_size"], case["ptycho_seed"], case.get("val")), seed=ctx.seed, depth=len(case["history"]))
     elif part == "determinism":
         t = w_determinism((case["J"], case["obj_type"], case["modes"], case["batch_size"], case["ptycho_seed"]), seed=ctx.seed)
     for f in t.fails:
